@@ -66,3 +66,256 @@ VARIANTS = [
  dict(name='benign-echo-compares-option', file=P, expect='silent',
       find='\tif resp.SignatureEnvelopeType != req.SignatureEnvelopeType {', replace='\tif resp.SignatureEnvelopeType != opts.SignatureMediaType {'),
 ]
+
+# ===== shapes accepted since the rule set follows helpers, merged exits and library forms =====
+ENV_TAIL = r'''	sigEnv, err := signature.ParseEnvelope(opts.SignatureMediaType, resp.SignatureEnvelope)
+	if err != nil {
+		return nil, nil, err
+	}
+	envContent, err := sigEnv.Verify()
+	if err != nil {
+		return nil, nil, fmt.Errorf("generated signature failed verification: %w", err)
+	}
+	if err := envelope.ValidatePayloadContentType(&envContent.Payload); err != nil {
+		return nil, nil, err
+	}
+	content := envContent.Payload.Content
+	var signedPayload envelope.Payload
+	if err = json.Unmarshal(content, &signedPayload); err != nil {
+		return nil, nil, fmt.Errorf("signed envelope payload can't be unmarshalled: %w", err)
+	}
+	if !isPayloadDescriptorValid(desc, signedPayload.TargetArtifact) {
+		return nil, nil, fmt.Errorf("during signing descriptor subject has changed from %+v to %+v", desc, signedPayload.TargetArtifact)
+	}
+	if unknownAttributes := areUnknownAttributesAdded(content); len(unknownAttributes) != 0 {
+		return nil, nil, fmt.Errorf("during signing, following unknown attributes were added to subject descriptor: %+q", unknownAttributes)
+	}
+	s.manifestAnnotations = resp.Annotations
+	return resp.SignatureEnvelope, &envContent.SignerInfo, nil
+}
+
+'''
+
+ENV_TAIL_HELPERS = r'''	signerInfo, err := verifyGeneratedEnvelope(opts.SignatureMediaType, resp.SignatureEnvelope, desc)
+	if err != nil {
+		return nil, nil, err
+	}
+	s.manifestAnnotations = resp.Annotations
+	return resp.SignatureEnvelope, signerInfo, nil
+}
+
+// verifyGeneratedEnvelope parses the signature envelope produced by the plugin
+// as an envelope of the given media type, verifies its integrity and checks
+// that it has been generated for the requested descriptor desc. On success it
+// returns the SignerInfo of the verified envelope.
+func verifyGeneratedEnvelope(mediaType string, rawEnvelope []byte, desc ocispec.Descriptor) (*signature.SignerInfo, error) {
+	sigEnv, err := signature.ParseEnvelope(mediaType, rawEnvelope)
+	if err != nil {
+		return nil, err
+	}
+	envContent, err := sigEnv.Verify()
+	if err != nil {
+		return nil, fmt.Errorf("generated signature failed verification: %w", err)
+	}
+	if err := envelope.ValidatePayloadContentType(&envContent.Payload); err != nil {
+		return nil, err
+	}
+	if err := checkSignedPayload(desc, envContent.Payload.Content); err != nil {
+		return nil, err
+	}
+	return &envContent.SignerInfo, nil
+}
+
+// checkSignedPayload checks that the signed payload targets the requested
+// descriptor desc and that no unknown attributes have been added to it.
+func checkSignedPayload(desc ocispec.Descriptor, payloadContent []byte) error {
+	var signedPayload envelope.Payload
+	if err := json.Unmarshal(payloadContent, &signedPayload); err != nil {
+		return fmt.Errorf("signed envelope payload can't be unmarshalled: %w", err)
+	}
+	if !isPayloadDescriptorValid(desc, signedPayload.TargetArtifact) {
+		return fmt.Errorf("during signing descriptor subject has changed from %+v to %+v", desc, signedPayload.TargetArtifact)
+	}
+	if unknownAttributes := areUnknownAttributesAdded(payloadContent); len(unknownAttributes) != 0 {
+		return fmt.Errorf("during signing, following unknown attributes were added to subject descriptor: %+q", unknownAttributes)
+	}
+	return nil
+}
+
+'''
+
+SIGN_TAIL = r'''	if metadata.HasCapability(plugin.CapabilitySignatureGenerator) {
+		ks, err := s.getKeySpec(ctx, mergedConfig)
+		if err != nil {
+			return nil, nil, fmt.Errorf("failed to sign with the plugin %s: %w", metadata.Name, err)
+		}
+		sig, signerInfo, err := s.generateSignature(ctx, desc, opts, ks, metadata, mergedConfig)
+		if err != nil {
+			return nil, nil, fmt.Errorf("failed to sign with the plugin %s: %w", metadata.Name, err)
+		}
+		return sig, signerInfo, nil
+	} else if metadata.HasCapability(plugin.CapabilityEnvelopeGenerator) {
+		sig, signerInfo, err := s.generateSignatureEnvelope(ctx, desc, opts)
+		if err != nil {
+			return nil, nil, fmt.Errorf("failed to sign with the plugin %s: %w", metadata.Name, err)
+		}
+		return sig, signerInfo, nil
+	}
+	return nil, nil, fmt.Errorf("plugin does not have signing capabilities")
+}
+
+'''
+
+SIGN_TAIL_MERGED = r'''	var (
+		sig        []byte
+		signerInfo *signature.SignerInfo
+	)
+	switch {
+	case metadata.HasCapability(plugin.CapabilitySignatureGenerator):
+		var ks signature.KeySpec
+		if ks, err = s.getKeySpec(ctx, mergedConfig); err == nil {
+			sig, signerInfo, err = s.generateSignature(ctx, desc, opts, ks, metadata, mergedConfig)
+		}
+	case metadata.HasCapability(plugin.CapabilityEnvelopeGenerator):
+		sig, signerInfo, err = s.generateSignatureEnvelope(ctx, desc, opts)
+	default:
+		return nil, nil, fmt.Errorf("plugin does not have signing capabilities")
+	}
+	if err != nil {
+		return nil, nil, fmt.Errorf("failed to sign with the plugin %s: %w", metadata.Name, err)
+	}
+	return sig, signerInfo, nil
+}
+
+'''
+
+SCAN = r'''func areUnknownAttributesAdded(content []byte) []string {
+	var targetArtifactMap map[string]interface{}
+
+	// Ignoring error because we already successfully unmarshalled before this
+	// point
+	_ = json.Unmarshal(content, &targetArtifactMap)
+	descriptor, _ := targetArtifactMap["targetArtifact"].(map[string]interface{})
+
+	// Explicitly remove expected keys to check if any are left over
+	delete(descriptor, "mediaType")
+	delete(descriptor, "digest")
+	delete(descriptor, "size")
+	delete(descriptor, "urls")
+	delete(descriptor, "annotations")
+	delete(descriptor, "data")
+	delete(descriptor, "platform")
+	delete(descriptor, "artifactType")
+	delete(targetArtifactMap, "targetArtifact")
+
+	unknownAttributes := append(getKeySet(descriptor), getKeySet(targetArtifactMap)...)
+	return unknownAttributes
+}
+
+'''
+
+SCAN_LIB = r'''// knownDescriptorAttributes are the JSON keys of [ocispec.Descriptor].
+var knownDescriptorAttributes = []string{
+	"mediaType",
+	"digest",
+	"size",
+	"urls",
+	"annotations",
+	"data",
+	"platform",
+	"artifactType",
+}
+
+func areUnknownAttributesAdded(content []byte) []string {
+	var targetArtifactMap map[string]any
+
+	// Ignoring error because we already successfully unmarshalled before this
+	// point
+	_ = json.Unmarshal(content, &targetArtifactMap)
+	descriptor, _ := targetArtifactMap["targetArtifact"].(map[string]any)
+
+	// Explicitly remove expected keys to check if any are left over
+	maps.DeleteFunc(descriptor, func(k string, _ any) bool {
+		return slices.Contains(knownDescriptorAttributes, k)
+	})
+	delete(targetArtifactMap, "targetArtifact")
+
+	unknownAttributes := make([]string, 0, len(descriptor)+len(targetArtifactMap))
+	unknownAttributes = slices.AppendSeq(unknownAttributes, maps.Keys(descriptor))
+	unknownAttributes = slices.AppendSeq(unknownAttributes, maps.Keys(targetArtifactMap))
+	return unknownAttributes
+}
+
+'''
+
+def _sub(text, find, replace):
+    assert text.count(find) == 1, find
+    return text.replace(find, replace)
+
+IMPORTS_LIB = (P, '\t"fmt"\n\t"time"\n', '\t"fmt"\n\t"maps"\n\t"slices"\n\t"time"\n')
+MARSHAL_FIND = '\tpayload := envelope.Payload{TargetArtifact: envelope.SanitizeTargetArtifact(desc)}\n\tpayloadBytes, err := json.Marshal(payload)\n\tif err != nil {\n\t\treturn nil, nil, fmt.Errorf("envelope payload can\'t be marshalled: %w", err)\n\t}\n\n\t// Execute plugin sign command.\n'
+MARSHAL_CALL = '\tpayloadBytes, err := marshalPayload(desc)\n\tif err != nil {\n\t\treturn nil, nil, err\n\t}\n\n\t// Execute plugin sign command.\n'
+MARSHAL_HELPER = 'func marshalPayload(target ocispec.Descriptor) ([]byte, error) {\n\ttoSign := envelope.Payload{TargetArtifact: envelope.SanitizeTargetArtifact(target)}\n\tencoded, err := json.Marshal(toSign)\n\tif err != nil {\n\t\treturn nil, fmt.Errorf("envelope payload can\'t be marshalled: %w", err)\n\t}\n\treturn encoded, nil\n}\n\n'
+MERGE_FN = 'func (s *PluginSigner) mergeConfig('
+
+VARIANTS += [
+ # ---- shape: the envelope checks live in helper functions (two levels) below the function that calls the plugin
+ dict(name='benign-envelope-checks-in-helpers', file=P, expect='silent', find=ENV_TAIL, replace=ENV_TAIL_HELPERS,
+      why='same checks in the same order on the same values, written in helpers with one call site each'),
+ dict(name='helpers-verify-error-ignored', file=P, expect='flagged(envelope/self-verify)', find=ENV_TAIL,
+      replace=_sub(ENV_TAIL_HELPERS, '\tenvContent, err := sigEnv.Verify()\n\tif err != nil {', '\tenvContent, err := sigEnv.Verify()\n\tif err != nil && envContent == nil {')),
+ dict(name='helpers-other-bytes-verified', file=P, expect='flagged(envelope/parse)', find=ENV_TAIL,
+      replace=_sub(ENV_TAIL_HELPERS, 'verifyGeneratedEnvelope(opts.SignatureMediaType, resp.SignatureEnvelope, desc)', 'verifyGeneratedEnvelope(opts.SignatureMediaType, payloadBytes, desc)')),
+ dict(name='helpers-annotations-not-handed-down', file=P, expect='flagged(envelope/descriptor-equal)', find=ENV_TAIL,
+      replace=_sub(ENV_TAIL_HELPERS, 'checkSignedPayload(desc, envContent.Payload.Content)', 'checkSignedPayload(ocispec.Descriptor{MediaType: desc.MediaType, Digest: desc.Digest, Size: desc.Size}, envContent.Payload.Content)')),
+ dict(name='helpers-scan-only-for-small-payloads', file=P, expect='flagged(envelope/unknown-fields)', find=ENV_TAIL,
+      replace=_sub(ENV_TAIL_HELPERS, '\tif unknownAttributes := areUnknownAttributesAdded(payloadContent); len(unknownAttributes) != 0 {', '\tif unknownAttributes := areUnknownAttributesAdded(payloadContent); len(unknownAttributes) != 0 && len(payloadContent) < 4096 {')),
+ dict(name='helpers-scan-of-other-bytes', file=P, expect='flagged(envelope/unknown-fields)', find=ENV_TAIL,
+      replace=_sub(ENV_TAIL_HELPERS, 'areUnknownAttributesAdded(payloadContent)', 'areUnknownAttributesAdded(payloadContent[:len(payloadContent)/2])')),
+ dict(name='helpers-decode-over-prefilled-payload', file=P, expect='flagged(envelope/payload-decode-target-fresh)', find=ENV_TAIL,
+      replace=_sub(ENV_TAIL_HELPERS, '\tvar signedPayload envelope.Payload\n', '\tsignedPayload := envelope.Payload{TargetArtifact: desc}\n')),
+ dict(name='helpers-returns-unverified-signer-info', file=P, expect='flagged(envelope/returns-verified-bytes)', find=ENV_TAIL,
+      replace=_sub(ENV_TAIL_HELPERS, '\treturn &envContent.SignerInfo, nil\n', '\tunverified, _ := sigEnv.Content()\n\treturn &unverified.SignerInfo, nil\n')),
+ dict(name='helpers-annotations-stored-before-check', file=P, expect='flagged(envelope/state-after-checks)', find=ENV_TAIL,
+      replace=_sub(ENV_TAIL_HELPERS, '\tsignerInfo, err := verifyGeneratedEnvelope(opts.SignatureMediaType, resp.SignatureEnvelope, desc)\n\tif err != nil {\n\t\treturn nil, nil, err\n\t}\n\ts.manifestAnnotations = resp.Annotations\n',
+                   '\ts.manifestAnnotations = resp.Annotations\n\tsignerInfo, err := verifyGeneratedEnvelope(opts.SignatureMediaType, resp.SignatureEnvelope, desc)\n\tif err != nil {\n\t\treturn nil, nil, err\n\t}\n')),
+ dict(name='helpers-descriptor-args-swapped', file=P, expect='flagged(envelope/annotations)', find=ENV_TAIL,
+      replace=_sub(ENV_TAIL_HELPERS, 'isPayloadDescriptorValid(desc, signedPayload.TargetArtifact)', 'isPayloadDescriptorValid(signedPayload.TargetArtifact, desc)')),
+ # ---- shape: Sign assigns (sig, signerInfo, err) in a switch and has one error test and one success return after it
+ dict(name='benign-dispatch-merged-exit', file=P, expect='silent', find=SIGN_TAIL, replace=SIGN_TAIL_MERGED,
+      why='merged variables come from the same call as the merged error that was tested'),
+ dict(name='merged-dispatch-envelope-without-capability', file=P, expect='flagged(dispatch/Sign)', find=SIGN_TAIL,
+      replace=_sub(SIGN_TAIL_MERGED, '\tcase metadata.HasCapability(plugin.CapabilityEnvelopeGenerator):\n\t\tsig, signerInfo, err = s.generateSignatureEnvelope(ctx, desc, opts)\n\tdefault:\n\t\treturn nil, nil, fmt.Errorf("plugin does not have signing capabilities")\n',
+                   '\tdefault:\n\t\tsig, signerInfo, err = s.generateSignatureEnvelope(ctx, desc, opts)\n')),
+ dict(name='merged-dispatch-keyspec-error-cleared', file=P, expect='flagged(dispatch/Sign)', find=SIGN_TAIL,
+      replace=_sub(SIGN_TAIL_MERGED, '\t\t\tsig, signerInfo, err = s.generateSignature(ctx, desc, opts, ks, metadata, mergedConfig)\n\t\t}\n',
+                   '\t\t\tsig, signerInfo, err = s.generateSignature(ctx, desc, opts, ks, metadata, mergedConfig)\n\t\t} else {\n\t\t\terr = nil\n\t\t}\n')),
+ dict(name='merged-dispatch-error-test-dropped', file=P, expect='flagged(dispatch/Sign)', find=SIGN_TAIL,
+      replace=_sub(SIGN_TAIL_MERGED, '\tif err != nil {\n\t\treturn nil, nil, fmt.Errorf("failed to sign with the plugin %s: %w", metadata.Name, err)\n\t}\n\treturn sig, signerInfo, nil\n',
+                   '\tif err != nil {\n\t\tlogger.Debugf("failed to sign with the plugin %s: %v", metadata.Name, err)\n\t}\n\treturn sig, signerInfo, nil\n')),
+ dict(name='merged-dispatch-signer-info-of-other-call', file=P, expect='flagged(dispatch/Sign)', find=SIGN_TAIL,
+      replace=_sub(SIGN_TAIL_MERGED, '\t\tsig, signerInfo, err = s.generateSignatureEnvelope(ctx, desc, opts)\n',
+                   '\t\tsig, signerInfo, err = s.generateSignatureEnvelope(ctx, desc, opts)\n\t\tif err == nil {\n\t\t\tsig, _, err = s.generateSignatureEnvelope(ctx, desc, opts)\n\t\t}\n')),
+ # ---- shape: the scan uses maps.DeleteFunc over a constant key list and maps.Keys / slices.AppendSeq
+ dict(name='benign-scan-library-forms', expect='silent', edits=[IMPORTS_LIB, (P, SCAN, SCAN_LIB)],
+      why='maps.DeleteFunc with a membership test in a constant list of descriptor JSON names; maps.Keys + slices.AppendSeq report every key'),
+ dict(name='library-scan-list-has-extra-key', expect='flagged(scan/removes-only-descriptor-fields)',
+      edits=[IMPORTS_LIB, (P, SCAN, _sub(SCAN_LIB, '\t"artifactType",\n', '\t"artifactType",\n\t"subject",\n'))]),
+ dict(name='library-scan-list-can-grow', expect='flagged(scan/removes-only-descriptor-fields)',
+      edits=[IMPORTS_LIB, (P, SCAN, SCAN_LIB + '// AllowDescriptorAttribute registers a further descriptor attribute.\nfunc AllowDescriptorAttribute(k string) {\n\tknownDescriptorAttributes = append(knownDescriptorAttributes, k)\n}\n\n')]),
+ dict(name='library-scan-predicate-wider-than-list', expect='flagged(scan/removes-only-descriptor-fields)',
+      edits=[IMPORTS_LIB, (P, SCAN, _sub(SCAN_LIB, '\t\treturn slices.Contains(knownDescriptorAttributes, k)\n', '\t\treturn slices.Contains(knownDescriptorAttributes, k) || len(k) > 12\n'))]),
+ dict(name='library-scan-outer-level-dropped', expect='flagged(scan/reports-both-levels)',
+      edits=[IMPORTS_LIB, (P, SCAN, _sub(SCAN_LIB, '\tunknownAttributes = slices.AppendSeq(unknownAttributes, maps.Keys(targetArtifactMap))\n', ''))]),
+ dict(name='library-scan-descriptor-keys-filtered', expect='flagged(scan/)',
+      edits=[IMPORTS_LIB, (P, SCAN, _sub(SCAN_LIB, '\tunknownAttributes = slices.AppendSeq(unknownAttributes, maps.Keys(descriptor))\n',
+                                         '\tfor k := range descriptor {\n\t\tif len(k) > 0 && k[0] != \'_\' {\n\t\t\tunknownAttributes = append(unknownAttributes, k)\n\t\t}\n\t}\n'))]),
+ # ---- shape: the payload handed to the plugin is marshalled by a helper
+ dict(name='benign-payload-marshalled-in-helper', expect='silent',
+      edits=[(P, MARSHAL_FIND, MARSHAL_CALL), (P, MERGE_FN, MARSHAL_HELPER + MERGE_FN)],
+      why='the bytes put into the request are result #0 of the helper\'s Marshal of the payload built from the helper\'s parameter = the requested descriptor'),
+ dict(name='helper-marshals-other-descriptor', expect='flagged(envelope/request-payload)',
+      edits=[(P, MARSHAL_FIND, _sub(MARSHAL_CALL, 'marshalPayload(desc)', 'marshalPayload(ocispec.Descriptor{MediaType: desc.MediaType, Digest: desc.Digest})')), (P, MERGE_FN, MARSHAL_HELPER + MERGE_FN)]),
+ dict(name='helper-marshals-payload-without-target', expect='flagged(envelope/request-payload)',
+      edits=[(P, MARSHAL_FIND, MARSHAL_CALL), (P, MERGE_FN, _sub(MARSHAL_HELPER, 'envelope.Payload{TargetArtifact: envelope.SanitizeTargetArtifact(target)}', 'envelope.Payload{TargetArtifact: ocispec.Descriptor{MediaType: target.MediaType}}') + MERGE_FN)]),
+]
